@@ -343,8 +343,10 @@ func runFED07(r *core.Run) {
 			}
 		}
 		for _, pos := range m.served {
+			nested := strings.HasSuffix(pos, "|nested")
+			pos = strings.TrimSuffix(pos, "|nested")
 			parts := strings.SplitN(pos, "|", 3)
-			if len(q.reps) > 0 && len(m.reps) > 0 && !ids[parts[0]+"|"+parts[1]] && servedByRepresentation(m, parts) {
+			if !nested && len(q.reps) > 0 && len(m.reps) > 0 && !ids[parts[0]+"|"+parts[1]] && servedByRepresentation(m, parts) {
 				continue // entity not part of this (smaller) request
 			}
 			if isFailed {
@@ -376,6 +378,7 @@ func runFED07(r *core.Run) {
 					continue
 				}
 				for _, pos := range m.served {
+					pos = strings.TrimSuffix(pos, "|nested")
 					if strings.HasPrefix(pos, tn+"|"+id+"|") && !(failPos[pos] && okPos[pos]) {
 						failPos[pos], okPos[pos] = true, true
 						changed = true
